@@ -340,9 +340,19 @@ func (f *flow) Start(ctx context.Context) {
 											f.retry.Step()
 											goto await
 										}
+										// retries exhausted: the token ends here
+										f.tracer.Send(TerminationTrace{
+											FlowId: f.Id(),
+											Source: source,
+										})
 										return
 									case SkipMode:
 									case ExitMode:
+										// the token ends here
+										f.tracer.Send(TerminationTrace{
+											FlowId: f.Id(),
+											Source: source,
+										})
 										return
 									}
 								case <-ctx.Done():
@@ -420,6 +430,10 @@ func (f *flow) Start(ctx context.Context) {
 
 					} else {
 						// nowhere to flow, abort
+						f.tracer.Send(TerminationTrace{
+							FlowId: f.Id(),
+							Source: f.current.Element(),
+						})
 						return
 					}
 				case completeAction:
